@@ -71,9 +71,16 @@ let () =
                                  (if is_arithmetic seg then "1" else "0"))) segs;
         print_endline (Buffer.contents b)
     | "back" :: a :: fs ->
-        (match plan_and_lookup (a = "1") (tokens_of_fields fs) with
-         | SErr e -> print_endline ("plan=" ^ perr e ^ " fw=-")
-         | SPlan (cl, f) -> print_endline ("plan=" ^ plan_str cl ^ " fw=" ^ fw_str f))
+        let toks = tokens_of_fields fs in
+        let m1 = (match plan_and_lookup (a = "1") toks with
+         | SErr e -> "plan=" ^ perr e ^ " fw=-"
+         | SPlan (cl, f) -> "plan=" ^ plan_str cl ^ " fw=" ^ fw_str f) in
+        (* the planner with notes/C05-fix-1.patch *)
+        let m2 = (match plan_and_lookup_fixed (a = "1") toks with
+         | SErr2 (P2 e) -> "plan=" ^ perr e ^ " fw=-"
+         | SErr2 PEmptyCmd -> "plan=E(EEmptyCmd) fw=-"
+         | SPlan2 (cl, f) -> "plan=" ^ plan_str cl ^ " fw=" ^ fw_str f) in
+        print_endline (m1 ^ "\t" ^ m2)
     | ["hl"; f] ->
         (match highlight (str_of_field f) with
          | Ok rs -> print_endline (ranges_str rs)
